@@ -476,9 +476,19 @@ class _Inliner:
             return None
         if cm is None and h.is_async != awaited:
             return None
-        if any(isinstance(a, ast.Starred) for a in c.args) or any(k.arg is None for k in c.keywords):
+        if any(isinstance(a, ast.Starred) for a in c.args):
             return None
         node = h.node
+        spreads = [k for k in c.keywords if k.arg is None]
+        if spreads:
+            # `h(…, **kw)` handed on to a helper that takes `**K` and only spreads K again (`g(…, **K)`): K is the caller's mapping
+            kwp = node.args.kwarg.arg if node.args.kwarg else None
+            if len(spreads) != 1 or kwp is None or not isinstance(spreads[0].value, ast.Name):
+                return None
+            k_uses = [x for b in node.body for x in ast.walk(b) if isinstance(x, ast.Name) and x.id == kwp]
+            k_spread = [k.value for b in node.body for x in ast.walk(b) if isinstance(x, ast.Call) for k in x.keywords if k.arg is None]
+            if any(not isinstance(u.ctx, ast.Load) or not any(u is v for v in k_spread) for u in k_uses):
+                return None
         has_yield = _contains(node, (ast.Yield,))
         if gen != has_yield and not cm:
             return None
@@ -568,15 +578,21 @@ class _Inliner:
             bound[a.vararg.arg] = ast.Tuple(elts=list(args), ctx=ast.Load())
         extra_kw: List[ast.keyword] = []
         names = {p.arg for p in pos} | {p.arg for p in a.kwonlyargs}
+        spread: Optional[ast.expr] = None
         for kw in c.keywords:
-            if kw.arg in names and kw.arg not in bound and kw.arg not in {p.arg for p in a.posonlyargs}:
+            if kw.arg is None:
+                spread = kw.value
+            elif kw.arg in names and kw.arg not in bound and kw.arg not in {p.arg for p in a.posonlyargs}:
                 bound[kw.arg] = kw.value
             elif a.kwarg is not None:
                 extra_kw.append(kw)
             else:
                 raise _GiveUp()
+        if spread is not None and (a.kwarg is None or extra_kw or any(n not in bound for n in names)):
+            raise _GiveUp()     # the mapping could carry a named parameter: not decided
         if a.kwarg is not None:
-            bound[a.kwarg.arg] = ast.Dict(keys=[ast.Constant(value=k.arg) for k in extra_kw], values=[k.value for k in extra_kw])
+            bound[a.kwarg.arg] = spread if spread is not None else \
+                ast.Dict(keys=[ast.Constant(value=k.arg) for k in extra_kw], values=[k.value for k in extra_kw])
         for n in names:
             if n not in bound:
                 if n in defaults:
@@ -652,6 +668,13 @@ class _Inliner:
                 isinstance(body[0].body[0], ast.Return) and isinstance(body[0].orelse[0], ast.Return) and \
                 body[0].body[0].value is not None and body[0].orelse[0].value is not None:
             e = self._ifexp(body[0].test, body[0].body[0].value, body[0].orelse[0].value, boolean)
+        elif len(body) >= 3 and isinstance(body[-1], ast.Return) and body[-1].value is not None and \
+                all(isinstance(b, ast.If) and not b.orelse and len(b.body) == 1 and isinstance(b.body[0], ast.Return) and b.body[0].value is not None
+                    for b in body[:-1]):
+            # guard clauses: `if T1: return E1` … `return En`  ==  E1 if T1 else (E2 if T2 else … En)
+            e = body[-1].value
+            for b in reversed(body[:-1]):
+                e = self._ifexp(b.test, b.body[0].value, e, boolean)
         if e is None:
             return None
         try:
